@@ -50,7 +50,7 @@ def layout_obs(ctx):
     """placement of the twiddle table and of the work buffers inside the object built by the real new_*_precomp(m, num_buffers)"""
     obs = []
     for kind in (0, 1, 2, 3):
-        for (m, nb) in (((1, 1), (2, 2), (4, 1), (4, 3), (8, 2), (8, 3)) if ctx.quick else ((1, 1), (2, 2), (4, 1), (4, 3), (8, 2), (8, 3), (16, 1))):
+        for (m, nb) in ((1, 1), (2, 2), (4, 1), (4, 3), (8, 2), (8, 3)):  # m = 16: the fill functions for m >= 16 exhaust 40 GB / 2 h here
             obs.append(core.Ob("precomp-layout/%s/m=%d/buffers=%d" % (KN[kind], m, nb), "precomp.c", "h_precomp", {"KIND": kind, "M": m, "NB": nb, "AVX": (m // 4) % 2},
                                REIM if kind < 2 else CPLX, unwind=max(4 * m + 8, 48), flags=["--slice-formula"], family="%s precomp layout" % KN[kind], timeout=600 if ctx.quick else 7200, mem_gb=10 if ctx.quick else 40,
                                desc="the real builder, then every work buffer from *_precomp_get_buffer filled with arbitrary data: writes stay inside the allocation, "
@@ -73,7 +73,7 @@ def check(ctx, only=None, list_only=False):
                               "reim_fft16_avx_fma.s / reim_ifft16_avx_fma.s (transpiled)", "cplx_fft_ref", "cplx_ifft_ref", "cplx_fft_avx2_fma",
                               "cplx_ifft_avx2_fma", "cplx_fft16_avx_fma.s / cplx_ifft16_avx_fma.s (transpiled)", "reim_fft / reim_ifft / cplx_fft / cplx_ifft (dispatch)"],
         "bounds": "m in {1,2,4,8,16,32,64} (thorough: 128, 256): every leaf size, the odd-log2 first pass, the radix-4 passes, the m<=16 switch; "
-                  "every implementation selected by the real builders for each cpu flag; all 2m inputs symbolic reals; precomp layout: the real new_{reim,cplx}_{fft,ifft}_precomp(m, nb) run symbolically for (m, nb) in {(1,1),(2,2),(4,1),(4,3),(8,2),(8,3)} (m=16 thorough; the fill functions for m >= 16 exhaust the SAT back end here, the placement arithmetic is the same expression for every m)",
+                  "every implementation selected by the real builders for each cpu flag; all 2m inputs symbolic reals; precomp layout: the real new_{reim,cplx}_{fft,ifft}_precomp(m, nb) run symbolically for (m, nb) in {(1,1),(2,2),(4,1),(4,3),(8,2),(8,3)} (the fill functions for m >= 16 exhaust the SAT back end here even with 40 GB; the placement arithmetic is the same expression for every m)",
         "outside": "m >= 128 (512 thorough) and hence the 2048 bfs/recursive threshold; the property's norm-wise constant for ALL inputs is not decided: "
                    "what is decided is (a) the component-wise certificate reported in evidence and (b) the sound alarm rule on unit inputs; "
                    "overflow/underflow (inputs assumed in a magnitude window where no intermediate leaves the normal range); AVX-512/SSE/NEON units",
